@@ -591,6 +591,9 @@ class Emitter:
         raise EmitError("no decidable equality known for %r" % (ty,))
 
     def arith(self, op, a, b, ty, env, k):
+        if ty == BOOL and op in ("|", "&", "^"):
+            # `a | b` on bool: both operands are evaluated (no short circuit), which they have been here
+            return k({"|": "(%s || %s)", "&": "(%s && %s)", "^": "(xorb %s %s)"}[op] % (a, b), BOOL, env)
         if not is_int(ty):
             if op == "|" and ty[0] == "struct":
                 bo = self.v["structs"][ty[1]].get("bitor")
@@ -1167,6 +1170,36 @@ class Emitter:
             return False
         return any(has_ctor(p) for p, _g, _b in arms)
 
+    def nested_nonnative(self, t):
+        """an enum with `native: False` below an Option / tuple"""
+        if t[0] == "opt":
+            return self.nonnative(t[1]) or self.nested_nonnative(t[1])
+        if t[0] == "tuple":
+            return any(self.nonnative(x) or self.nested_nonnative(x) for x in t[1])
+        return False
+
+    def pat_names_nonnative(self, p, ty):
+        """the pattern names a variant of a `native: False` enum below a constructor"""
+        while p.kind == "pref":
+            p = p.inner
+        if p.kind == "ppath":
+            return self.nonnative(ty)
+        if p.kind == "por":
+            return any(self.pat_names_nonnative(x, ty) for x in p.alts)
+        if p.kind == "ptuple":
+            tys = ty[1] if ty[0] == "tuple" and len(ty[1]) == len(p.elems) else [UNKNOWN] * len(p.elems)
+            return any(self.pat_names_nonnative(x, t) for x, t in zip(p.elems, tys))
+        if p.kind == "ptstruct":
+            ep = self.enum_payload(p)
+            if ep is not None:
+                return any(self.pat_names_nonnative(x, t) for x, t in zip(p.elems, ep[1]))
+            inner = ty[1] if ty[0] == "opt" else UNKNOWN
+            return any(self.pat_names_nonnative(x, inner) for x in p.elems)
+        return False
+
+    def nonnative(self, t):
+        return t[0] == "enum" and self.v["enums"][t[1]].get("native", True) is False
+
     def hybrid_pat(self, p, ty, binds, tests, term=None):
         """Gallina pattern for p (variables for literals, tested afterwards); `term` is given for a
         top-level component, whose plain identifier pattern binds the scrutinee itself"""
@@ -1190,8 +1223,20 @@ class Emitter:
             n = self.fresh("x")
             tests.append(self.pat_test(p, n, ty, []))
             return n
+        if (k == "ppath" or (k == "por" and all(x.kind == "ppath" for x in p.alts))) and self.nonnative(ty):
+            # variant(s) of an enum the model represents by a number: tested like a literal
+            if term is not None:
+                tests.append(self.pat_test(p, term, ty, []))
+                return "_"
+            n = self.fresh("x")
+            tests.append(self.pat_test(p, n, ty, []))
+            return n
         if k == "ppath":
             return self.coq_pattern(p, ty, binds)
+        if k == "ptstruct" and self.enum_payload(p) is not None and term is None:
+            # data-carrying variant of a native vocabulary enum (`Some(Color::Ansi(c))`)
+            ctor, ptys = self.enum_payload(p)
+            return "(%s %s)" % (ctor, " ".join(self.hybrid_pat(x, t, binds, tests) for x, t in zip(p.elems, ptys)))
         if k == "ptstruct":
             name = p.segs[-1]
             if name not in ("Some", "Ok", "Err") or len(p.elems) != 1:
@@ -1275,6 +1320,12 @@ class Emitter:
                         native = False
             if any(t[0] == "enum" and self.v["enums"][t[1]].get("native", True) is False for t in tys):
                 native = False
+            if native and any(self.nested_nonnative(t) for t in tys):
+                # `Some(<variant of an enum the model represents by a number>)`: constructor-and-literal match
+                for p, _g, _b in e.arms:
+                    ps = p.elems if (len(comps) > 1 and p.kind == "ptuple") else [p]
+                    if len(ps) == len(tys) and any(self.pat_names_nonnative(x, t) for x, t in zip(ps, tys)):
+                        native = False
             if native and not all(is_int(t) for t in tys):
                 def build(kk):
                     out = ["match %s with" % ", ".join(terms)]
@@ -2015,6 +2066,8 @@ class Emitter:
             mode = "inout" if (ty.form == "ref" and ty.mut) else "in"
             params.append((mode, self.param_type(pat, ty)))
         ret = self.ty_of_ast(fn.ret)
+        # optional vocabulary key `ret_types: {fn: type}`: a return type the AST does not determine (`impl Iterator<..>`)
+        ret = self.v.get("ret_types", {}).get((struct + "::" if struct else "") + fn.name, ret)
         sk = fn.self_kind
         key = (struct + "::" if struct else "") + fn.name
         # optional vocabulary key `interior_mut: [fn key]`: a `&self` method that writes through interior
@@ -2037,8 +2090,10 @@ class Emitter:
                 return st
         return self.ty_of_ast(ty)
 
-    def emit_fn(self, fn, struct=None, coq_name=None, force_monadic=False):
-        """returns (Gallina definition text, shape)"""
+    def emit_fn(self, fn, struct=None, coq_name=None, force_monadic=False, rec_fuel=None):
+        """returns (Gallina definition text, shape).
+        rec_fuel (a Gallina nat term): the function calls itself; it is emitted as a Fixpoint `<name>_rec` over a
+        fuel argument (out of fuel = None, like the loops) and `<name>` = `<name>_rec <rec_fuel>`"""
         self.counter = {}
         for reserved in self.reserved:
             self.counter[reserved] = 1
@@ -2084,6 +2139,10 @@ class Emitter:
                 outs.append(p.name)
         ret = shape["ret"]
         self.monadic = False
+        if rec_fuel is not None:
+            force_monadic = True
+            self.counter["rec_fuel"] = 1
+            self.fn_shapes[self.cur_fn] = dict(shape, coq="%s_rec rec_fuel'" % shape["coq"], total=False)
 
         def finish(envx, t, ty):
             parts = [envx.by_decl(n, env.get(n).decl).coq for n in outs]
@@ -2108,6 +2167,12 @@ class Emitter:
             rty = "(" + rty + ")"
         if not total:
             rty = "option " + rty
+        if rec_fuel is not None:
+            names = [re.match(r"\((\S+) :", b).group(1) for b in binders]
+            text = ("Fixpoint %s_rec (rec_fuel : nat) %s {struct rec_fuel} : %s :=\n  match rec_fuel with\n  | O => None\n  | S rec_fuel' =>\n%s\n  end.\n\n"
+                    "Definition %s %s : %s :=\n  %s_rec %s %s."
+                    % (shape["coq"], " ".join(binders), rty, ind(body, 4), shape["coq"], " ".join(binders), rty, shape["coq"], rec_fuel, " ".join(names)))
+            return text, shape
         text = "Definition %s %s : %s :=\n%s." % (shape["coq"], " ".join(binders), rty, ind(body))
         return text, shape
 
